@@ -121,6 +121,37 @@ func VerifC16Relay(depth, mask, optBits int) {
 		if cur != nil {
 			verifAssert(!cur.IsRelay(), "exactly-depth-levels-after-wire")
 		}
+		// a chain decoded from the wire is edited in place — an option added to its innermost
+		// message, its type changed, the hop count of the innermost relay changed — and encoded
+		// again: the datagram carries the edits (nothing remembered from decoding stands in for them)
+		if bm, merr := back.GetInnerMessage(); merr == nil && bm != nil {
+			added := verifBytes("added", 2)
+			bm.AddOption(&OptionGeneric{OptionCode: 253, OptionData: added})
+			bm.MessageType = MessageTypeRenew
+			if depth > 0 {
+				if lr, lerr := DecapsulateRelayIndex(back, -1); lerr == nil {
+					if r, ok := lr.(*RelayMessage); ok {
+						r.HopCount = 0x5a
+					}
+				}
+			}
+			again, aerr := FromBytes(back.ToBytes())
+			verifAssert(aerr == nil && again != nil, "edited-chain-decodes")
+			if aerr == nil && again != nil {
+				am, amerr := again.GetInnerMessage()
+				verifAssert(amerr == nil && am != nil, "edited-chain-decodes")
+				if amerr == nil && am != nil {
+					verifAssert(am.MessageType == MessageTypeRenew, "edits-to-a-decoded-chain-reach-the-wire")
+					g, _ := am.GetOneOption(253).(*OptionGeneric)
+					verifAssert(g != nil && verifSame(g.OptionData, added), "edits-to-a-decoded-chain-reach-the-wire")
+				}
+				if depth > 0 {
+					lr, lerr := DecapsulateRelayIndex(again, -1)
+					r, ok := lr.(*RelayMessage)
+					verifAssert(lerr == nil && ok && r.HopCount == 0x5a, "edits-to-a-decoded-chain-reach-the-wire")
+				}
+			}
+		}
 	}
 	if depth > 0 {
 		reply := &Message{MessageType: MessageTypeReply, TransactionID: inner.TransactionID}
